@@ -23,6 +23,7 @@ import (
 	"rcproxy/core"
 	"rcproxy/core/authip"
 	"rcproxy/core/codec"
+	"rcproxy/core/pkg/constant"
 	"rcproxy/core/pkg/logging"
 )
 
@@ -216,6 +217,12 @@ func (ls *listenServer) OnMoved(addr string, slot int32, s core.SConn, f *core.F
 	delete(f.Peer.Fd2Slot, s.Fd())
 	f.Peer.Fd2Slot[sConn.Fd()] = slot
 
+	if f.Type == codec.RspAsk {
+		// the importing node serves the slot only to a command that directly follows ASKING
+		asking := core.FragPool.Get()
+		asking.Req = append(asking.Req, constant.ReqAsking...)
+		sConn.EnqueueOutFrag(asking)
+	}
 	sConn.EnqueueOutFrag(f)
 }
 
